@@ -170,6 +170,21 @@ func main() {
 			stream = append(stream, e...)
 			hexes = append(hexes, hex.EncodeToString(e))
 		}
+		if cs%4 == 1 {
+			// a last command that makes the pipeline exactly a multiple of the server's 8 KiB read
+			// buffer long: the reads that deliver it are all full, and nothing follows
+			target := ((len(stream) + 64) / 8192 + 1 + rng.Intn(2)) * 8192
+			for n := target - len(stream); n > 0; n-- {
+				pad := [][]byte{[]byte("SET"), []byte("pad"), bytes.Repeat([]byte("p"), n)}
+				if e := respio.EncodeCmd(pad); len(stream)+len(e) == target {
+					cmds = append(cmds, pad)
+					stream = append(stream, e...)
+					hexes = append(hexes, hex.EncodeToString(e))
+					stats["exact_buffer_multiples"]++
+					break
+				}
+			}
+		}
 		// split points for B
 		var cuts []int
 		mode := cs % 6
